@@ -6,7 +6,7 @@ import json
 
 from cases import evaluate, run_corpus, normalise_field_case, resolve_py, split_records
 from common import case_line, parse_result
-from gen import bound_text, sides, wellformed_bound, pick_side
+from gen import medium_run, bound_text, sides, wellformed_bound, pick_side
 
 LEVEL = "proof"
 BIG_IO = lambda a: "--json" in a        # which command lines of cases.rand_cli the large-input stream keeps
@@ -49,6 +49,9 @@ def _run_once(chk):
         d = rng.choice(["-", "--", "ab", "é"])
         alpha = [c for c in SPECIALS if c != eol] + ([] if chars else [d, d])
         recs = ["".join(rng.choice(alpha) for _ in range(rng.randint(1, 6))) for _ in range(rng.randint(1, 2))]
+        if rng.random() < 0.05:
+            # a part of 15-513 characters, dense in characters that need escaping (each may grow sixfold)
+            recs[0] += "".join(medium_run(rng, [c for c in SPECIALS if c != eol]))
         nb = rng.randint(1, 3)
         bs = []
         for _ in range(nb):
